@@ -11,18 +11,18 @@ import numpy as np
 
 from .. import models
 from ..core import RunResult, adigest, mix
-from .pool_common import draw_game, make_sim, patched_mp, pool_reach
+from .pool_common import draw_game, isolated_module_state, make_sim, patched_mp, pool_reach
 
 NAME = "A"
 PROPERTY = "C07"
 RUNS = {"quick": 700, "thorough": 30000}
 RUN_WALL_CAP = 30.0
-REQUIRED_PROBES = {"quick": ["pool_branch_entered", "two_chunks_two_workers", "transposed_branch", "untransposed_branch", "unequal_alphabets", "out_of_order_completion", "single_worker_pool", "second_pool_config_compared"], "thorough": ["pool_branch_entered", "two_chunks_two_workers", "transposed_branch", "untransposed_branch", "unequal_alphabets", "out_of_order_completion", "single_worker_pool", "sixtyone_worker_pool", "second_pool_config_compared", "real_pool_crosscheck"]}
+REQUIRED_PROBES = {"quick": ["pool_branch_entered", "two_chunks_two_workers", "transposed_branch", "untransposed_branch", "unequal_alphabets", "out_of_order_completion", "single_worker_pool", "second_pool_config_compared", "same_shape_game_sequence"], "thorough": ["pool_branch_entered", "two_chunks_two_workers", "transposed_branch", "untransposed_branch", "unequal_alphabets", "out_of_order_completion", "single_worker_pool", "sixtyone_worker_pool", "second_pool_config_compared", "real_pool_crosscheck", "same_shape_game_sequence"]}
 COMPONENTS = {"real": ["toqito.nonlocal_games.NonlocalGame.classical_value / process_iteration", "pickle round trip of every chunk", "numpy"], "stub": ["multiprocessing.Pool -> SimPool (discrete-event, in-process, CPython 3.12 chunking and fork-snapshot semantics)", "os.cpu_count (simulated)"]}
-RULE = ("one run = one game with 1001..4096 strategies on the enumerated side (all shape families, unequal alphabets and question counts, 0/1 and fractional predicates, "
+RULE = ("one run = a history of 1..3 games (the next one of the same shape and different contents, or a fresh shape; the first game evaluated once more at the end), each with 1001..4096 strategies on the enumerated side (all shape families, unequal alphabets and question counts, 0/1 and fractional predicates, "
         "uniform / skewed / zero-containing question distributions) x one simulated pool configuration (1..61 workers, idle-worker choice, chunk durations, stalls); "
         "non-trivial = pool branch entered with >=2 workers used and >=2 chunks, or the 1-worker / 61-worker edge; distinct = distinct digest of (game, pool event order)")
-SHRINK_ORDER = ["config", "game", "pool", "pool2"]
+SHRINK_ORDER = ["config", "game", "fault", "pool", "pool2"]
 TOL = 1e-9
 
 
@@ -37,20 +37,31 @@ def preload():
 
 
 def run(cs, tier, run_index):
-    res = RunResult()
     M = _mod()
+    with isolated_module_state([M], [M.NonlocalGame]):
+        return _run(cs, tier, run_index, M)
+
+
+def _run(cs, tier, run_index, M):
+    res = RunResult()
     cfg = cs.s("config")
     fault_run = cfg.draw(10) == 9  # separate population, informational only
     second = cfg.draw(4) == 1 or run_index % 16 == 3
-    prob, pred, meta = draw_game(cs.s("game"))
-    res.probe("transposed_branch" if meta["enumerated"] == "alice" else "untransposed_branch")
-    if "planted" in meta:
-        res.probe("planted_optimum:" + meta["planted"]["position"])
-    if meta["shape"][0] != meta["shape"][1]:
-        res.probe("unequal_alphabets")
-    prob0, pred0 = prob.copy(), pred.copy()
-    expected = models.classical_value_bf_vec(prob, pred)
-    game = M.NonlocalGame(prob, pred)
+    # a run is a short history of games through the pool: the next game has the same shape and
+    # different contents (2 in 3) or a fresh shape; finally the first game is evaluated once more
+    n_extra = cfg.weighted([(0, 5), (1, 3), (2, 2)])
+    if run_index % 16 == 4:
+        n_extra = max(n_extra, 1)
+    gs = cs.s("game")
+    games = []
+    prob, pred, meta = draw_game(gs)
+    games.append((prob, pred, meta))
+    for j in range(n_extra):
+        hs = cs.s(f"game:{j + 1}")
+        like = games[-1][2] if hs.draw(3) else None
+        games.append(draw_game(hs, like=like))
+        if like is not None:
+            res.probe("same_shape_game_sequence")
 
     fault = None
     if fault_run:
@@ -61,33 +72,53 @@ def run(cs, tier, run_index):
         sim.cpu_count = 1
     elif run_index % 16 == 2 and tier == "thorough":
         sim.cpu_count = 61
-    outcome = call(M, game, sim)
-    nontrivial = pool_reach(sim, res)
-    res.log.add("pool", meta["shape"], meta["enumerated"], sim.max_workers, sim.chunks, sim.completion_order[:64], repr(outcome[1])[:40])
 
-    if fault_run and res.faults.get("worker_memoryerror"):
-        # what the call does under an injected worker failure is recorded, never judged
-        if outcome[0] == "exc":
-            res.probe("fault_outcome:raised_" + outcome[1])
-        elif abs(float(outcome[1]) - expected) <= TOL:
-            res.probe("fault_outcome:returned_correct")
-        else:
-            res.probe("fault_outcome:returned_wrong")
-    else:
+    objs, expected, outcomes = [], [], []
+    order = list(range(len(games))) + ([0] if len(games) > 1 else [])
+    for pos, gi in enumerate(order):
+        prob, pred, meta = games[gi]
+        pub = {k: v for k, v in meta.items() if not k.startswith("_")}
+        if pos < len(games):
+            res.probe("transposed_branch" if meta["enumerated"] == "alice" else "untransposed_branch")
+            if "planted" in meta:
+                res.probe("planted_optimum:" + meta["planted"]["position"])
+            if meta["shape"][0] != meta["shape"][1]:
+                res.probe("unequal_alphabets")
+            expected.append(models.classical_value_bf_vec(prob, pred))
+            objs.append((M.NonlocalGame(prob, pred), prob.copy(), pred.copy()))
+        game, prob0, pred0 = objs[gi]
+        chunks_before = sim.chunks
+        outcome = call(M, game, sim)
+        outcomes.append(outcome)
+        res.log.add("pool", pos, gi, pub["shape"], pub["enumerated"], sim.max_workers, sim.chunks - chunks_before, sim.completion_order[-64:], repr(outcome[1])[:40])
+        if fault_run and res.faults.get("worker_memoryerror"):
+            # what the call does under an injected worker failure is recorded, never judged
+            if outcome[0] == "exc":
+                res.probe("fault_outcome:raised_" + outcome[1])
+            elif _num(outcome[1]) and abs(float(outcome[1]) - expected[gi]) <= TOL:
+                res.probe("fault_outcome:returned_correct")
+            else:
+                res.probe("fault_outcome:returned_wrong")
+            break
         res.checks_sim += 1
-        judge(res, "C07.pool.value", outcome, expected, meta, sim)
+        judge(res, "C07.pool.value", outcome, expected[gi], dict(pub, position_in_history=pos, games_in_history=len(games)), sim)
         res.checks_sim += 1
         if not (np.array_equal(game.prob_mat, prob0) and np.array_equal(game.pred_mat, pred0) and np.array_equal(prob, prob0) and np.array_equal(pred, pred0)):
-            res.violate("C07.pool.args", why="prob_mat / pred_mat changed by classical_value through the pool", **meta)
-        if second and outcome[0] == "ok":
-            sim2 = make_sim(cs, res, "pool2", [M], [M.NonlocalGame])
-            out2 = call(M, game, sim2)
-            pool_reach(sim2, res)
-            res.probe("second_pool_config_compared")
-            res.checks_sim += 1
-            if out2[0] != "ok" or not _num(out2[1]) or abs(float(out2[1]) - float(outcome[1])) > TOL:
-                res.violate("C07.pool.config", first=repr(outcome[1])[:60], second=repr(out2[1])[:60], workers=[sim.max_workers, sim2.max_workers], **meta)
-            res.log.add("pool2", sim2.max_workers, sim2.chunks, sim2.completion_order[:64], repr(out2[1])[:40])
+            res.violate("C07.pool.args", why="prob_mat / pred_mat changed by classical_value through the pool", **pub)
+            break
+    nontrivial = pool_reach(sim, res)
+    prob0, pred0 = objs[0][1], objs[0][2]
+    meta0 = {k: v for k, v in games[0][2].items() if not k.startswith("_")}
+    outcome = outcomes[0]
+    if not fault_run and second and outcome[0] == "ok" and not res.violations:
+        sim2 = make_sim(cs, res, "pool2", [M], [M.NonlocalGame])
+        out2 = call(M, objs[0][0], sim2)
+        pool_reach(sim2, res)
+        res.probe("second_pool_config_compared")
+        res.checks_sim += 1
+        if out2[0] != "ok" or not _num(out2[1]) or abs(float(out2[1]) - float(outcome[1])) > TOL:
+            res.violate("C07.pool.config", first=repr(outcome[1])[:60], second=repr(out2[1])[:60], workers=[sim.max_workers, sim2.max_workers], **meta0)
+        res.log.add("pool2", sim2.max_workers, sim2.chunks, sim2.completion_order[:64], repr(out2[1])[:40])
 
     # stub fidelity (thorough tier): the same game through the REAL multiprocessing.Pool must give the
     # model value too.  Not the deciding step: its schedule is not controlled and cannot be replayed.
@@ -99,14 +130,14 @@ def run(cs, tier, run_index):
         res.probe("real_pool_crosscheck")
         res.checks_sim += 1
         res.log.add("real_pool", repr(real[1])[:40])
-        if real[0] != "ok" or not _num(real[1]) or abs(float(real[1]) - expected) > TOL:
-            res.violate("C07.pool.value", why="REAL multiprocessing.Pool result differs from the enumeration model", real_pool=True, got=repr(real[1])[:60], expected=expected, **meta)
+        if real[0] != "ok" or not _num(real[1]) or abs(float(real[1]) - expected[0]) > TOL:
+            res.violate("C07.pool.value", why="REAL multiprocessing.Pool result differs from the enumeration model", real_pool=True, got=repr(real[1])[:60], expected=expected[0], **meta0)
         elif outcome[0] == "ok" and _num(outcome[1]) and abs(float(real[1]) - float(outcome[1])) > TOL:
             raise AssertionError("SimPool and the real pool disagree: %r vs %r" % (outcome[1], real[1]))
     res.nontrivial = nontrivial and not fault_run
-    res.case_key = "%016x" % mix(adigest(prob0), adigest(pred0), sim.max_workers, tuple(sim.completion_order))
+    res.case_key = "%016x" % mix([adigest(g[0]) + adigest(g[1]) for g in games], sim.max_workers, tuple(sim.completion_order))
     res.interleaving = "%016x" % mix(sim.max_workers, tuple(sim.completion_order))
-    res.sample = {"game": meta, "workers": sim.max_workers, "chunks": sim.chunks, "completion_order_head": sim.completion_order[:16], "stall_permille": sim.stall_permille, "fault_population": fault_run, "value": repr(outcome[1])[:30], "model": expected}
+    res.sample = {"games": [{k: v for k, v in g[2].items() if not k.startswith("_")} for g in games], "call_order": order, "workers": sim.max_workers, "chunks": sim.chunks, "completion_order_head": sim.completion_order[:16], "stall_permille": sim.stall_permille, "fault_population": fault_run, "values": [repr(o[1])[:24] for o in outcomes], "models": expected}
     return res
 
 
